@@ -382,8 +382,9 @@ theorem simple_coder_slicing {φ : Type} (F : Filter φ) (unfilteredMax lim : Na
       ∧ (r.ret = .streamEnd → r.out = (F φ₀ input).1 ∧ r.consumed = input.length)
       ∧ (r.ret = .ok ∨ r.ret = .streamEnd) := by
   intro r
-  have h : SRunInv F lim φ₀ input (NullG input) input.length r :=
-    (SRunInv.init F lim φ₀ input (NullG input) input hlim () (by simp [NullG])).sliced hF (nullLaw endsAtFinish fin input) allocated sl
+  have h : SRunInv F lim φ₀ input (NullG input) (fun _ => True) input.length r :=
+    (SRunInv.init F lim φ₀ input (NullG input) (fun _ => True) input hlim () (by simp [NullG])).sliced hF
+      (nullLaw endsAtFinish fin input) allocated sl
   refine ⟨h.result_null.1, h.result_null.2, ?_⟩
   by_cases hr : r.ret = .ok
   · exact Or.inl hr
